@@ -34,6 +34,7 @@ OBLIGATIONS = [
     "VgiVerif.C18.C18_terminates_gzip",
     "VgiVerif.C18.C18_alloc_zstd",
     "VgiVerif.C18.C18_alloc_gzip",
+    "VgiVerif.C18.C18_library_defaults",
 ]
 TRUSTED = [
     "zstandard / zlib: dec(enc x) = x, content-size reporting, readers return a non-empty prefix of at most the requested "
